@@ -1197,6 +1197,37 @@ theorem splitF_inv (left : Nat) : InvPreserving (splitF left) := by
     · exact piecesF_inv (subPieces_split _ _) _ r (by intro a ha; simp at ha; subst ha; exact hargs _ (by simp)) hr
   · cases hr
 
+theorem randomF_inv (k : Nat) : InvPreserving (randomF k) := by
+  intro args r hargs hr
+  unfold randomF at hr
+  split at hr
+  · rename_i s safe
+    cases hr
+    split
+    · rename_i c hc
+      have hs := hargs (.str s safe) (by simp)
+      refine inv_str fun hsafe => ?_
+      subst hsafe
+      have hcl := clean_of_inv hs
+      intro ch hch
+      simp only [List.mem_singleton] at hch
+      subst hch
+      exact hcl ch (List.mem_of_getElem? hc)
+    · exact inv_undef
+  · rename_i xs
+    cases hr
+    have hx := inv_seq.mp (hargs (.seq xs) (by simp))
+    cases h : xs[k]? with
+    | none => simpa using inv_undef
+    | some v => simpa using hx v (List.mem_of_getElem? h)
+  · cases hr
+
+theorem lipsumF_inv (html : Bool) (cps : List Nat) : InvPreserving (lipsumF html cps) := by
+  intro args r _ hr
+  simp only [lipsumF, Option.some.injEq] at hr
+  subst hr
+  exact inv_str fun _ => Clean.ofTmpl _
+
 /-! ### the machine -/
 
 def StInv (st : St) : Prop := (∀ v ∈ st.pool, v.Inv) ∧ (∀ b ∈ st.caps, Clean b) ∧ Clean st.outR
@@ -1410,6 +1441,90 @@ theorem named_models_preserve_inv (name : String) (ps : List Nat) (g : Fn)
     | (cases h; exact strSplitlinesF_inv)
     | (cases h; exact dictValuesF_inv)
     | (cases h; exact dictGetF_inv)
+    | (cases h; exact randomF_inv _)
+    | (cases h; exact lipsumF_inv _ _)
+    | (cases h)
+
+
+/-! ### mode `None` (`Expression::eval`, templates whose name selects no escaping, `autoescape false`):
+the safety-aware filters take their plain branch, `escape`/`format`/`truncate` fall back to Html -/
+
+theorem escapeF_none : escapeF .none = escapeF .html := by
+  funext args; unfold escapeF; rfl
+theorem formatF_none : formatF .none = formatF .html := by
+  funext args; unfold formatF; rfl
+theorem truncateF_none (a b : Nat) (c : Bool) : truncateF .none a b c = truncateF .html a b c := by
+  funext args; unfold truncateF; rfl
+
+theorem replaceF_none_inv : InvPreserving (replaceF .none) := by
+  intro args r _ hr
+  unfold replaceF at hr
+  split at hr
+  · simp at hr
+    subst hr
+    exact inv_str_false _
+  · cases hr
+
+theorem joinF_none_inv : InvPreserving (joinF .none) := by
+  intro args r _ hr
+  have key : ∀ v j r, joinGo .none v j = some r → r.Inv := by
+    intro v j r h
+    unfold joinGo at h
+    split at h
+    · cases h
+    · simp at h
+      subst h
+      exact inv_str_false _
+  unfold joinF at hr
+  split at hr <;> first | exact key _ _ _ hr | cases hr
+
+theorem named_models_preserve_inv_none (name : String) (ps : List Nat) (g : Fn)
+    (h : lookupBase name .none ps = some (g, true)) : InvPreserving g := by
+  unfold lookupBase at h
+  rw [escapeF_none, formatF_none, truncateF_none] at h
+  split at h <;> first
+    | (cases h; exact concatF_inv)
+    | (cases h; exact addF_inv)
+    | (cases h; exact repeatF_inv _)
+    | (cases h; exact sliceF_inv _ _)
+    | (cases h; exact elemF_inv _)
+    | (cases h; exact charsF_inv)
+    | (cases h; exact escapeF_inv)
+    | (cases h; exact preserveF_inv (reflects_mapChars upperC_reflecting))
+    | (cases h; exact preserveF_inv (reflects_mapChars lowerC_reflecting))
+    | (cases h; exact preserveF_inv reflects_capitalize)
+    | (cases h; exact normalOut_inv (normalF_normalOut _))
+    | (cases h; exact trimF_inv)
+    | (cases h; exact reverseF_inv)
+    | (cases h; exact preserveF_inv (reflects_indent _ _ _))
+    | (cases h; exact replaceF_none_inv)
+    | (cases h; exact joinF_none_inv)
+    | (cases h; exact formatF_inv)
+    | (cases h; exact truncateF_inv _ _ _)
+    | (cases h; exact splitF_inv _)
+    | (cases h; exact piecesF_inv subPieces_lines)
+    | (cases h; exact firstF_inv)
+    | (cases h; exact lastF_inv)
+    | (cases h; exact defaultF_inv _)
+    | (cases h; exact stringF_inv)
+    | (cases h; exact lengthF_inv)
+    | (cases h; exact itemsF_inv)
+    | (cases h; exact sortF_inv _ _)
+    | (cases h; exact minF_inv)
+    | (cases h; exact maxF_inv)
+    | (cases h; exact selectF_inv _)
+    | (cases h; exact batchF_inv _)
+    | (cases h; exact uniqueF_inv)
+    | (cases h; exact attrArgF_inv)
+    | (cases h; exact strMapF_inv _)
+    | (cases h; exact strStripF_inv _)
+    | (cases h; exact strReplaceF_inv)
+    | (cases h; exact strJoinF_inv)
+    | (cases h; exact strSplitlinesF_inv)
+    | (cases h; exact dictValuesF_inv)
+    | (cases h; exact dictGetF_inv)
+    | (cases h; exact randomF_inv _)
+    | (cases h; exact lipsumF_inv _ _)
     | (cases h)
 
 /-- … and so does `map` with any such filter -/
@@ -1424,5 +1539,23 @@ theorem named_models_preserve_inv_map (name : String) (ps : List Nat) (g : Fn)
     exact mapF_inv (named_models_preserve_inv _ ps g0 h0)
   · exact named_models_preserve_inv name ps g h
 
+
+/-- the named models preserve the invariant in every mode but Json -/
+theorem named_models_preserve_inv_mode (m : Mode) (hm : m ≠ .json) (name : String) (ps : List Nat) (g : Fn)
+    (h : lookupF name m ps = some (g, true)) : InvPreserving g := by
+  have base : ∀ n g0, lookupBase n m ps = some (g0, true) → InvPreserving g0 := by
+    intro n g0 h0
+    cases m with
+    | html => exact named_models_preserve_inv n ps g0 h0
+    | none => exact named_models_preserve_inv_none n ps g0 h0
+    | json => exact absurd rfl hm
+  unfold lookupF at h
+  split at h
+  · simp only [Option.map_eq_some_iff] at h
+    obtain ⟨⟨g0, ok⟩, h0, h1⟩ := h
+    simp only [Prod.mk.injEq] at h1
+    obtain ⟨rfl, rfl⟩ := h1
+    exact mapF_inv (base _ g0 h0)
+  · exact base name g h
 
 end MJ.Safe
